@@ -224,7 +224,17 @@ func genC04(g *Gen) {
 		g.bin2("Max", z, x)
 		g.bin2("Min", x, z)
 	})
-	g.pairGrid(0.45, func(x, y d128.Decimal) {
+	g.cmpTailGrid(0.15, func(x, y d128.Decimal) {
+		g.bin2("Cmp", x, y)
+		g.bin2("Cmp", y, x)
+		g.bin2("CmpAbs", x, y)
+		g.bin2("CmpAbs", y, x)
+		g.bin2("Equal", x, y)
+		g.bin2("Compare", y, x)
+		g.bin2("Min", x, y)
+		g.bin2("Max", y, x)
+	})
+	g.pairGrid(0.4, func(x, y d128.Decimal) {
 		g.bin2("Cmp", x, y)
 		g.bin2("CmpAbs", x, y)
 		g.bin2("CmpAbs", y, x)
@@ -359,6 +369,44 @@ func genC11(g *Gen) {
 		9999999999999999, 999999999999999999, 1000000000000000000, 5000000000000000000, -5000000000000000001, 1 << 53, 1<<62 + 1}
 	expEdges := []int{math.MinInt64, math.MinInt64 + 1, math.MinInt32, -70000, -7000, -6300, 6300, 7000, 70000, math.MaxInt32, math.MaxInt64 - 1, math.MaxInt64,
 		32767, 32768, -32768, -32769, 65535, 65536, -65536}
+	// New and Ldexp below the smallest exponent: (digits dropped) x (guard digit) x (sticky position), six default modes
+	var njs []int
+	for j := 1; j <= 18; j++ {
+		njs = append(njs, j)
+	}
+	ng := tailGrid(njs)
+	g.gridRun(len(ng), 0.3, func(i int) {
+		t := ng[i]
+		nk := g.r.Intn(19 - t.j) // digits kept above the dropped ones (possibly none)
+		v := new(big.Int)
+		if nk > 0 {
+			v.Mul(randDigits(g.r, nk), pow10(t.j))
+			if g.r.Intn(3) == 0 { // an even / odd last kept digit on demand
+				v.Mul(big.NewInt(int64(2*g.r.Intn(5)+g.r.Intn(2))), pow10(t.j))
+			}
+		}
+		v.Add(v, g.tailValue(t))
+		if !v.IsInt64() || v.Sign() == 0 {
+			return
+		}
+		sig := v.Int64()
+		if g.r.Intn(2) == 0 {
+			sig = -sig
+		}
+		for m := 0; m < 6; m++ {
+			g.setMode(m)
+			e := Ev{"op": "New", "sig": bigNInt(sig)}
+			setInt(e, "exp", eMin-t.j)
+			g.emit(e)
+			if m%2 == 0 {
+				le := Ev{"op": "Ldexp"}
+				le.setDec("x", mk(sig < 0, new(big.Int).Abs(v), 0))
+				setInt(le, "exp", eMin-t.j)
+				g.emit(le)
+			}
+		}
+		g.setMode(0)
+	})
 	for !g.w.full() {
 		// New
 		var sig int64
